@@ -1,7 +1,8 @@
 (* C11 — pinned statements. Nothing but statements, [exact] and Print Assumptions.
    n is the configuration's max_value_power: 64 for metrique-aggregation, 32 for the metrics.rs bridge. *)
-From Coq Require Import List NArith ZArith Permutation Sorted.
-From MV Require Import C11.Model C11.Float C11.BucketProofs C11.HistProofs C11.SortProofs C11.ReaggProofs.
+From Coq Require Import List NArith ZArith Permutation Sorted Reals.
+From Flocq Require Import Core.Core IEEE754.Binary.
+From MV Require Import C11.Model C11.Float C11.BucketProofs C11.HistProofs C11.SortProofs C11.ReaggProofs C11.FloatProofs.
 Import ListNotations.
 Local Open Scope N_scope.
 
@@ -70,6 +71,36 @@ Theorem c11_error_absolute : forall n a d i, 5 <= n -> 0 < d -> 32 * a < d ->
   m * d <= 1024 * a /\ 1024 * a < m * d + d.
 Proof. exact reported_within_1024th. Qed.
 Print Assumptions c11_error_absolute.
+
+(* ---- the float pipeline (Flocq binary64) ---- *)
+
+(* For every finite non-negative double x with 1024 x < 2^64 (i.e. x < 2^54), the integer that record_many
+   buckets — scale_up (x * 1024.0), min with u64::MAX as f64, `as u64` — is exactly floor (1024 x): the
+   multiplication is exact, the clamp is inactive, the cast truncates. *)
+Theorem c11_scaled_floor : forall x : f64, is_finite 53 1024 x = true -> Bsign 53 1024 x = false ->
+  (B2R 53 1024 x * 1024 < bpow radix2 64)%R -> Z.of_N (scaled_u64 x) = Zfloor (B2R 53 1024 x * 1024).
+Proof. exact scaled_u64_floor. Qed.
+Print Assumptions c11_scaled_floor.
+
+(* Hence the accuracy clause for actual doubles: x = a/d is reported at midpoint/1024 within x/16 ... *)
+Theorem c11_float_error_relative : forall (x : f64) (a d : N),
+  is_finite 53 1024 x = true -> Bsign 53 1024 x = false -> 0 < d ->
+  B2R 53 1024 x = (IZR (Z.of_N a) / IZR (Z.of_N d))%R -> (B2R 53 1024 x * 1024 < bpow radix2 64)%R ->
+  d <= 32 * a ->
+  exists i, value_to_index 64 (scaled_u64 x) = Some i /\
+            16 * (bucket_mid 64 i * d) <= 17 * (1024 * a) /\ 15 * (1024 * a) <= 16 * (bucket_mid 64 i * d).
+Proof. exact float_reported_within_16th. Qed.
+Print Assumptions c11_float_error_relative.
+
+(* ... and within 1/1024 when x < 1/32. *)
+Theorem c11_float_error_absolute : forall (x : f64) (a d : N),
+  is_finite 53 1024 x = true -> Bsign 53 1024 x = false -> 0 < d ->
+  B2R 53 1024 x = (IZR (Z.of_N a) / IZR (Z.of_N d))%R -> (B2R 53 1024 x * 1024 < bpow radix2 64)%R ->
+  32 * a < d ->
+  exists i, value_to_index 64 (scaled_u64 x) = Some i /\
+            bucket_mid 64 i * d <= 1024 * a /\ 1024 * a < bucket_mid 64 i * d + d.
+Proof. exact float_reported_within_1024th. Qed.
+Print Assumptions c11_float_error_absolute.
 
 (* ---- the bucket array under any record sequence ---- *)
 
@@ -217,3 +248,10 @@ Proof. vm_compute. reflexivity. Qed.
 Example c11_example_reagg_exact :
   Forall mean_scales_back (drain_mids 64 (hist_run 64 [(1024, 1); (5, 7); (1087, 2); (123456789, 1000000)])).
 Proof. apply scales_back_sound. vm_compute. reflexivity. Qed.
+
+(* the premises of the float theorems are satisfiable: the double 1.5 = 3/2, bucketed as 1536 *)
+Example c11_example_float :
+  is_finite 53 1024 one_and_half = true /\ Bsign 53 1024 one_and_half = false /\
+  B2R 53 1024 one_and_half = (IZR (Z.of_N 3) / IZR (Z.of_N 2))%R /\
+  (B2R 53 1024 one_and_half * 1024 < bpow radix2 64)%R /\ scaled_u64 one_and_half = 1536.
+Proof. exact float_example_premises. Qed.
